@@ -19,7 +19,7 @@ func init() {
 				"(largest) among competing proposals the winner replaces the current leader only on strictly larger voted power; (effect) stop(), SetNewCommissions and AddVersion are dominated by the respective decision; (votes) the three vote handlers reject past heights (`data.Height < currentBlock`), duplicate votes (IsVoteExists/IsHaltExists on the same height and key) and non-owners, and the vote they record is what the duplicate test reads. " +
 				"NOT decided: that validatorsPowers/totalPower hold the present validators' stakes (C17/C19), big.Int arithmetic itself.",
 			Assumptions: stdAssumptions,
-			Rules:       []string{"C20.exact", "C20.largest", "C20.effect", "C20.votes"},
+			Rules:       []string{"C20.exact", "C20.largest", "C20.effect", "C20.votes", "C20.powers"},
 		},
 		Run: runC20,
 	})
@@ -150,7 +150,64 @@ func exactQuorum(cond ssa.Value, truth bool, env map[*ssa.Parameter]ssa.Value, d
 	return core.Discharged, "exact strict test 3·voted > 2·total over big.Int", resolve(a), resolve(b)
 }
 
+// checkVotingPowers: the quorum compares the power of the validators that voted with
+// blockchain.totalPower. Both are filled by calculatePowers: a validator's stake must enter the
+// per-validator table (what a vote weighs) under exactly the condition under which it enters the
+// total — not marked to drop and recorded as present in this block. A validator that is weighed
+// but not counted in the total lets a minority of the present power pass a vote.
+func checkVotingPowers(c *core.Ctx, rule string) {
+	fn := c.MustFn(rule, "(*coreV2/minter.Blockchain).calculatePowers")
+	if fn == nil {
+		return
+	}
+	var weigh, count ssa.Instruction
+	for _, b := range fn.Blocks {
+		for _, in := range b.Instrs {
+			switch x := in.(type) {
+			case *ssa.MapUpdate:
+				if strings.HasSuffix(core.Path(x.Map), ".validatorsPowers") {
+					weigh = x
+				}
+			case *ssa.Call:
+				if core.CalleeName(&x.Call) == "(*math/big.Int).Add" && strings.HasSuffix(core.Path(x.Call.Args[0]), ".totalPower") {
+					count = x
+				}
+			}
+		}
+	}
+	if weigh == nil || count == nil {
+		c.Unk(rule, "calculatePowers/shape", fn.Pos(), "the per-validator table store / the total accumulation was not recognised")
+		return
+	}
+	present := func(in ssa.Instruction) (bool, bool) {
+		notDrop, pres := false, false
+		for _, f := range c.FactsAt(in, 0) {
+			cf, ok := f.AsCall()
+			if !ok {
+				continue
+			}
+			switch cf.MethodName() {
+			case "IsToDrop":
+				if cf.Op == token.ILLEGAL && !f.Truth {
+					notDrop = true
+				}
+			case "GetValidatorStatus":
+				k, okk := constOf(c, core.PkgMint, "ValidatorPresent")
+				if okk && k == cf.Const && ((cf.Op == token.NEQ && !f.Truth) || (cf.Op == token.EQL && f.Truth)) {
+					pres = true
+				}
+			}
+		}
+		return notDrop, pres
+	}
+	wd, wp := present(weigh)
+	cd, cp := present(count)
+	c.Check(wd && wp && cd && cp, rule, "calculatePowers/same-condition", weigh.Pos(), "a validator's stake enters the vote-weight table and the total power under the same `not dropped ∧ present` condition",
+		fmt.Sprintf("vote weights and the quorum base are filled under different conditions (weight: not-dropped=%v present=%v; total: not-dropped=%v present=%v): an absent validator's earlier vote still counts while its stake is missing from the total", wd, wp, cd, cp))
+}
+
 func runC20(c *core.Ctx) {
+	defer checkVotingPowers(c, "C20.powers")
 	for _, t := range tallies {
 		fn := c.MustFn("C20.exact", t.name)
 		if fn == nil {
